@@ -1,0 +1,15 @@
+// Copyright 2026 The Mellium Contributors.
+// Use of this source code is governed by the BSD 2-clause
+// license that can be found in the LICENSE file.
+
+//go:build !verif
+
+// Package verifhook contains scheduling hooks used by external verification
+// tooling.
+// Without the "verif" build tag every hook is an empty function.
+package verifhook
+
+// Yield marks a point at which verification tooling may park the calling
+// goroutine.
+// It does nothing unless the package is built with the "verif" tag.
+func Yield(point string) {}
